@@ -2,7 +2,7 @@
 # runs every quick check under several VERIF_SEED values and prints the verdict lines (development aid)
 cd "$(dirname "$0")/.."
 for s in "$@"; do
-  for id in C01 C02 C03 C04 C05 C06 C07 C08 C09 C10 C11 C12 C13 C14 C15 C16 C17 C18; do
+  for id in ${CHECKS:-C01 C02 C03 C04 C05 C06 C07 C08 C09 C10 C11 C12 C13 C14 C15 C16 C17 C18}; do
     VERIF_SEED=$s ./check $id --tier quick > /tmp/seedscan_$$.log 2>&1; rc=$?
     echo "seed=$s $id rc=$rc $(grep -c '^VIOLATION' /tmp/seedscan_$$.log) violations"
     grep '^VIOLATION\|MACHINERY' /tmp/seedscan_$$.log | cut -c1-300
